@@ -57,6 +57,8 @@ CASES = [
      ("expect", ["[DecidableEq K]", "Rs.omapInsert m k 1", "(Rs.omapGet m k).isSome"])),
     ("set", "fn f(s: &mut BTreeSet<u32>, k: u32) -> bool { s.insert(k) }", ("expect", ["Rs.nsetInsert s k", "(!(s.contains k))"])),
     ("structpat", "fn f(s: &S) -> u64 { let S { a, .. } = s; *a }", ("expect", ["let a := s_1.a"])),
+    ("startswith", "fn f(tag: &str, p: &String, pre: bool) -> bool { if pre { tag.starts_with(p) } else { *tag == *p } }",
+     ("expect", ["(Rs.strStartsWith tag p)"])),
     ("somealias", "impl S { fn f(&mut self) { let p = self.o.as_mut().unwrap(); *p = 3; } }",
      ("expect", ["Rs.unwrap self.o", "{ self with o := (some 3) }"]), ("S", "f")),
     ("traitdefault", "trait T { fn req(&self, x: u32) -> u32; fn d(&self, x: u32) -> u32 { self.req(x) + 1 } }",
